@@ -147,7 +147,7 @@ class World:
         "reject-then-check", "accept-mutation", "slice-assign", "list-assign", "neg-index", "sym-assign",
         "bind-total", "bind-partial", "bind-reject", "bind-self-alias", "dicke", "dicke-invalid", "flip-cold", "flip-warm",
         "save-load-ok", "ctor-reject", "ctor-accept-sym", "grey-band", "torn-file-load", "type-invalid",
-        "mask-assign", "drift-step", "value-kind-mismatch",
+        "mask-assign", "drift-step", "value-kind-mismatch", "shared-storage-pair",
     ]
 
     # ------------------------------------------------------------ generation
@@ -169,7 +169,7 @@ class World:
         weights = {
             "new": 2, "setitem": r.choice([4, 8, 12]), "bind": r.choice([1, 3]), "read": 3, "flip": r.choice([0, 1, 2]),
             "dicke": r.choice([0, 1]), "zero": 0.3, "save": r.choice([0, 1, 2]), "load": r.choice([0, 1, 2]),
-            "clear_cache": 0.3,
+            "clear_cache": 0.3, "alias": r.choice([0, 0.6, 1.5]),
         }
         ops, ws = zip(*weights.items())
         steps = []
@@ -232,7 +232,7 @@ class World:
         return {"op": "zero", "args": {"n": r.choice([1, 2, 3, 4, 0, -1, 2.0])}}
 
     def _gen_dicke(self, r, cfg):
-        n = r.randint(1, 8)
+        n = r.randint(1, 8) if r.random() < 0.85 else r.randint(9, 11)
         k = r.randint(0, n) if r.random() < 0.8 else r.choice([-1, n + 1, n + 3, 1.0, -2])
         return {"op": "dicke", "args": {"n": n, "k": k}}
 
@@ -306,6 +306,9 @@ class World:
     def _gen_flip(self, r, cfg):
         return {"op": "flip", "args": {"w": r.randrange(64), "times": r.choice([1, 2]), "fn": r.choice(["wf", "amps"]),
                                        "clear": r.random() < 0.5}}
+
+    def _gen_alias(self, r, cfg):
+        return {"op": "alias", "args": {"w": r.randrange(64)}}
 
     def _gen_clear_cache(self, r, cfg):
         return {"op": "clear_cache", "args": {}}
@@ -476,6 +479,25 @@ class World:
                       f"constructor rejected valid {a['kind']} vector {entries!r}: {type(res).__name__}: {res}")
             ctx.probe("ctor-reject")
             ctx.log("new", "rejected", kind=a["kind"], exc=type(res).__name__)
+
+    def _do_alias(self, ctx, st, step, a):
+        """A second Wavefunction built on the amplitudes of an existing numeric one.  The constructor keeps a complex
+        ndarray as it is, so both objects live on ONE array (by design): whatever happens to one - an accepted
+        assignment, a rejected one and its rollback - the other must stay a valid wavefunction as well."""
+        ent = self._pick(st, a["w"])
+        if ent is None or ent["m"].symbolic or not isinstance(ent["obj"]._amplitude_vector, np.ndarray):
+            ctx.log("alias", "noop")
+            return
+        W = st["wfmod"].Wavefunction
+        ok, res = call(W, ent["obj"].amplitudes)
+        ctx.called("Wavefunction(amplitudes of another)")
+        ctx.check(ok, "unexpected-reject", "constructor-from-amplitudes", lambda: f"Wavefunction(w.amplitudes) raised {res!r}")
+        if res._amplitude_vector is ent["obj"]._amplitude_vector:
+            ctx.probe("shared-storage-pair")
+            st["pool"].append({"obj": res, "m": ent["m"], "approx": ent.get("approx")})  # one model for both
+        else:
+            st["pool"].append({"obj": res, "m": M(list(ent["m"].entries), False), "approx": ent.get("approx")})
+        ctx.log("alias", "ok")
 
     def _do_zero(self, ctx, st, step, a):
         W = st["wfmod"].Wavefunction
